@@ -112,6 +112,10 @@ def rng_strict_css(p, res):
         los = sorted(x[0] for x in got)
         if len(got) != 2 and not any(not l.endswith('[0]') for l in los):
             res.undecided('%s: containment bounds %s' % (fq, sorted(got)), 'two containment tests (selector .. block end, name .. value end) expected in this function')
+        elif len(got) == 2 and not any(l.endswith('[1]') or l.endswith('[2]') for l in los) and not all(l.endswith('[0]') for l in los):
+            # the pending range is no longer a list (a small class, a tuple with named fields): which field is the start is not
+            # visible here; TBL-CSSSCAN / RNG-FRAME look at the values
+            res.undecided('%s: containment bounds %s' % (fq, sorted(got)), 'the lower bounds are not subscripts [0] of the pending selector / property range')
         elif len(got) != 2 or not all(l.endswith('[0]') for l in los):
             res.bad(F('RNG-STRICT/css', p.func(fq), p.func(fq).node, 'containment bounds %s' % sorted(got),
                       'lower bounds must be the start ([0]) of the pending selector / property range'))
@@ -137,7 +141,9 @@ def _strict_rule_lenient(p, res):
                 res.bad(F('RNG-STRICT/actions', f, node, src_of(node), 'the open tag must strictly contain the position: start < pos < end'))
             else:
                 res.ok('%s: %s' % (f.short, src_of(node)))
-    if n != 1:
+    if n == 0:
+        res.undecided('%s: no two-sided test of the position' % f.short, 'the containment test start < pos < end is spelled as separate one-sided tests; TBL-ACTIONS compares the cases')
+    elif n != 1:
         raise AnalysisError('RNG-STRICT/actions: %d containment tests in get_open_tag' % n)
 
 
